@@ -1,0 +1,8 @@
+//go:build verif
+
+// Machine-checked contracts for package model (comment-only; read by /verif/gocv).
+
+package model
+
+//@ type Model
+//@   field eventConsumers guarded_by eventConsumersLock
